@@ -410,7 +410,14 @@ def run(case):
                 o.violate('data', dict(fb['info'], band=[0, 1], full_shape=list(full.shape)))
                 continue
             if full.shape[0] != rows:
-                o.count('info_full_rows_differ_from_written')        # C15 territory for compressed files
+                o.count('info_full_rows_differ_from_written')
+                if form == 'compressed':
+                    # the whole-image load of a compressed file must give back every row of the image that was
+                    # compressed (C15: dimensions are restored) - otherwise the bands can tile a truncated "full image"
+                    # perfectly and hide the loss
+                    o.violate('cover', dict(fb['info'], band=[0, 1], rows_written=rows, rows_loaded=int(full.shape[0]),
+                                            what='band (0,1) of a compressed file does not hold all rows of the image'))
+                    continue
             first = np.asarray(full[:, 0], dtype=np.float64)
             order = np.argsort(first, kind='stable')
             sorted_first = first[order]
